@@ -3,6 +3,7 @@ package hsim
 import (
 	"fmt"
 	"sort"
+	"time"
 
 	"github.com/aukilabs/hagall-common/messages/hagallpb"
 	"github.com/aukilabs/hagall-common/messages/odalpb"
@@ -60,10 +61,42 @@ type Model struct {
 	Modules  map[string]bool
 	modOrder []string
 	SymSess  map[string]string // symbolic session name -> global id last bound
+	// client clock fault (WorldCfg.Skew)
+	Skew     string
+	SkewBase int64
+	stampN   map[int]int
+	// Tainted: connections that sent a pose or component update while in no session. The
+	// server holds such an update back until the connection's next join request flushes it, then
+	// refuses it (a disconnect cause) while the join is already queued: from then on the
+	// connection may be ended at any point of that join. (Shared by clones.)
+	Tainted map[int]bool
+}
+
+// stamp is the timestamp connection ci writes into its next message.
+func (m *Model) stamp(ci int) *timestamppb.Timestamp {
+	t := time.Now()
+	if m.Skew == "" || ci%2 == 1 {
+		return timestamppb.New(t)
+	}
+	if m.stampN == nil {
+		m.stampN = map[int]int{}
+	}
+	n := m.stampN[ci]
+	m.stampN[ci]++
+	t = t.Add(time.Duration(m.SkewBase) * time.Second)
+	switch m.Skew {
+	case "saw":
+		t = t.Add(-time.Duration(n%4) * 2 * time.Second)
+	case "jumpback":
+		if n >= 4 {
+			t = t.Add(-time.Hour)
+		}
+	}
+	return timestamppb.New(t)
 }
 
 func NewModel(mods []string) *Model {
-	m := &Model{Live: map[string]*MSession{}, Conns: map[int]*MConn{}, AllUUIDs: map[string]bool{}, Modules: map[string]bool{}, SymSess: map[string]string{}}
+	m := &Model{Live: map[string]*MSession{}, Conns: map[int]*MConn{}, AllUUIDs: map[string]bool{}, Modules: map[string]bool{}, SymSess: map[string]string{}, Tainted: map[int]bool{}}
 	for _, x := range mods {
 		m.Modules[x] = true
 		m.modOrder = append(m.modOrder, x)
@@ -352,7 +385,7 @@ func (m *Model) Depart(ci int) *Outcome {
 
 // Clone deep-copies the model (used to try the permutations of a concurrent block).
 func (m *Model) Clone() *Model {
-	n := &Model{Live: map[string]*MSession{}, Conns: map[int]*MConn{}, AllUUIDs: map[string]bool{}, Modules: m.Modules, modOrder: m.modOrder, SymSess: map[string]string{}}
+	n := &Model{Live: map[string]*MSession{}, Conns: map[int]*MConn{}, AllUUIDs: map[string]bool{}, Modules: m.Modules, modOrder: m.modOrder, SymSess: map[string]string{}, Skew: m.Skew, SkewBase: m.SkewBase, stampN: m.stampN, Tainted: m.Tainted}
 	for k, v := range m.AllUUIDs {
 		n.AllUUIDs[k] = v
 	}
